@@ -73,6 +73,7 @@ def witnesses():
     cl = lambda name, parent, fields: {"name": name, "parent": parent, "fields": fields}
     f = lambda n, k, t=None: {"name": n, "kind": k, "target": t}
     return {
+        "second-ormatic-over-the-same-diagram": {"handwritten": True},
         "self-list-duplicate-association-column": {"profile": "selflist", "perm": ["K0", "K1"], "spec": {
             "module": "gw_selflist", "order": ["K0", "K1"], "profile": "selflist", "classes": [
                 cl("K0", None, [f("uid", "int"), f("f0_0", "self_list", "K0")]), cl("K1", None, [f("uid", "int")])]}},
@@ -165,8 +166,39 @@ def compare(spec, facts, C):
     return problems
 
 
+def run_handwritten(ctx):
+    """the hand-written model of C04 / C05 (alternative mappings, a custom column type, a frozen class): generation
+    works, is the same in another process under another hash seed, and - inside the driver - the same for a second
+    ORMatic over the same ClassDiagram object"""
+    from models import ormmodel_spec
+    C = ctx["counters"]
+    order = ormmodel_spec.SPEC["order"]
+    problems = []
+    shas = []
+    for hashseed in (0, 4242):
+        wd = tempfile.mkdtemp(prefix="handwritten-", dir=ctx["workroot"])
+        try:
+            out = run_driver(wd, "models.ormmodel", order, hashseed)
+        finally:
+            shutil.rmtree(wd, ignore_errors=True)
+        C["handwritten_model_generations"] += 1
+        if out.get("stage") != "done":
+            return {"status": "fail", "kind": "pipeline:" + str(out.get("stage")), "key": None,
+                    "detail": f"hand-written model: stage={out.get('stage')} {out.get('error')}"[:700]}
+        if out.get("second_generation_in_process_equal") is False:
+            problems.append("a second generation in the same process differs: " + str(out.get("second_generation_diff"))[:300])
+        shas.append(out["iface_sha"])
+    if len(set(shas)) != 1:
+        problems.append("generation of the hand-written model is not deterministic across PYTHONHASHSEEDs")
+    if problems:
+        return {"status": "fail", "kind": "generated-layer", "key": None, "detail": "; ".join(problems)[:900]}
+    return {"status": "ok", "nontrivial": True, "shape": "handwritten"}
+
+
 def run(spec_case, ctx):
     C = ctx["counters"]
+    if spec_case.get("handwritten"):
+        return run_handwritten(ctx)
     spec = spec_case["spec"]
     modname = spec["module"]
     workdir = tempfile.mkdtemp(prefix=modname + "-", dir=ctx["workroot"])
